@@ -127,6 +127,20 @@ def runCalls : Obj Val LV → List String → List String → Option (List Strin
             | .error e => runCalls o cs (fmtErr e :: acc)
         else none
       | _, _ => none
+    | ["Q"] =>   -- accessors: _get_fixed_variables(), dim, get_density(name) for every density
+      match o with
+      | .joint fl ds =>
+        let kindOf (d : Dens Val LV) : String := match d with | .dist .. => "D" | .lik .. => "L" | .eval .. => "E"
+        let dens := ds.map (fun d => match d.name with
+          | some n => (match getDensity ds n with | .ok d' => n ++ "=" ++ kindOf d' | .error _ => n ++ "=?")
+          | none => "?")
+        match flavorDim fl ds with
+        | .error e => runCalls o cs (fmtErr e :: acc)
+        | .ok dims =>
+          let rec_ := "q:" ++ fmtNames ((jointFixed ds).map (fun n => n.getD "?")) ++ "!" ++ fmtNatList dims
+            ++ "!" ++ fmtNames dens
+          runCalls o cs (rec_ :: acc)
+      | _ => runCalls o cs ("err:AttributeError" :: acc)
     | ["S"] =>
       match o.asStacked with
       | .ok o' => runCalls o' cs (fmtObj o' :: acc)
